@@ -124,9 +124,67 @@ fn cli_password_edges(ctx: &Ctx) {
 }
 
 
+/// Every command that takes a locked key must refuse it under another password or after a change to its
+/// bytes, whatever the other arguments are (e.g. change-pass to the same password as the one supplied).
+fn cli_refusals_in_every_command(ctx: &Ctx) {
+    let mut rng = Rng::fork(ctx.seed, "C15-cli-refuse");
+    let wd = WorkDir::new("c15r");
+    for i in 0..ctx.tier.pick(3, 24) {
+        let key = rng.arr32();
+        let pw = ["right-pw", "", "p\u{e4}ss"][i % 3].to_string();
+        let other = format!("{}-other", pw);
+        let locked = refspec::lock_sk(&key, pw.as_bytes(), &rng.arr32());
+        let blob = unb64(&locked).unwrap();
+        let tamper = |at: usize| {
+            let mut b = blob.clone();
+            b[at] ^= 0x01;
+            b64(&b)
+        };
+        // (locked string, old password given, new password given, why it must be refused)
+        let cases: Vec<(String, String, String, &str)> = vec![
+            (locked.clone(), other.clone(), other.clone(), "another password, new password equal to it"),
+            (locked.clone(), other.clone(), "new".into(), "another password, different new password"),
+            (locked.clone(), other.clone(), pw.clone(), "another password, new password equal to the real one"),
+            (tamper(0), pw.clone(), pw.clone(), "version byte changed, right password, same new password"),
+            (tamper(4 + rng.range(0, 31)), pw.clone(), pw.clone(), "salt byte changed, right password, same new password"),
+            (tamper(36 + rng.range(0, 31)), pw.clone(), pw.clone(), "ciphertext byte changed, right password, same new password"),
+            (tamper(68 + rng.range(0, 15)), pw.clone(), pw.clone(), "tag byte changed, right password, same new password"),
+            (tamper(68 + rng.range(0, 15)), pw.clone(), "new".into(), "tag byte changed, right password, different new password"),
+        ];
+        for (l, oldp, newp, why) in &cases {
+            let o = Cmd::new(&wd.path, &["key", "change-pass", l, "--env-pass"]).pass(oldp).env("KESTREL_NEW_PASSWORD", newp).run();
+            ctx.eval();
+            if o.exit == Exit::Timeout {
+                ctx.inconclusive("C15 cli: timeout");
+            } else if o.exit == Exit::Code(1) && !o.stdout_s().contains("PrivateKey") {
+                ctx.seen("cli: change-pass refuses a key it cannot unlock");
+                ctx.distinct(&format!("refuse|{}|{}", i, why));
+            } else {
+                ctx.violation("C15:cli:change-pass-accepted-a-key-it-cannot-unlock", json!({"why_it_must_fail": why, "old_password": oldp, "new_password": newp, "exit": o.exit.describe(), "stdout": o.stdout_s(), "stderr": o.stderr_s()}));
+            }
+        }
+        // positive control: right password, same new password -> a string that unlocks, with a new salt
+        let o = Cmd::new(&wd.path, &["key", "change-pass", &locked, "--env-pass"]).pass(&pw).env("KESTREL_NEW_PASSWORD", &pw).run();
+        ctx.eval();
+        let out = o.stdout_s();
+        let newl = out.lines().find_map(|l| l.trim().strip_prefix("PrivateKey = ")).unwrap_or("").trim().to_string();
+        if o.exit == Exit::Code(0) && refspec::unlock_sk(&newl, pw.as_bytes()) == Ok(key) {
+            ctx.seen("cli: change-pass to the same password with the right password succeeds");
+        } else if o.exit == Exit::Timeout {
+            ctx.inconclusive("C15 cli: timeout");
+        } else {
+            ctx.violation("C15:cli:change-pass-with-the-right-password-fails", json!({"exit": o.exit.describe(), "stderr": o.stderr_s()}));
+        }
+    }
+}
+
 pub fn cli_lanes(ctx: &Ctx) {
     cli_layer(ctx);
     cli_password_edges(ctx);
+    cli_refusals_in_every_command(ctx);
+    crate::ttylanes::c15(ctx);
+    ctx.require("cli: change-pass refuses a key it cannot unlock", 16);
+    ctx.require("tty: unlock succeeded only at the right password", 4);
 }
 
 /// Fallback when keyring.rs cannot be compiled into the monitor.
